@@ -2,19 +2,44 @@
     Property theorems (statements only; proofs are in CfgState/ReplayProofs.v). *)
 From stdpp Require Import gmap strings.
 From Coq Require Import NArith.
-From SV Require Import CfgState.Model CfgState.Spec CfgState.Gen CfgState.GenSteps CfgState.ReplayProofs.
+From SV Require Import CfgState.Model CfgState.Spec CfgState.Gen CfgState.GenSteps CfgState.ReplayProofs
+  CfgState.ReplayBuckets CfgState.InvRProofs.
 Open Scope N_scope.
 
-(** Full statement (NOT proved at full strength; claimed partial):
-      replay_generate : Inv s ->
-        replay (generate_requests s) empty_state = (s', 0) /\ norm s' = norm s
-    for every reachable s.  Proved below: the statement with exact equality for
-    every state whose bucket sections (backends, tcp/udp frontends,
-    certificates) are empty — all four listener kinds with activation,
-    clusters with health checks, http and https frontends —, and
-    order-independence of each of those sections.  The bucket sections are
-    covered by the correspondence runs (all four replay paths on the real
-    code) only. *)
+(** C05 at full strength on the model: for every state reachable by any
+    history of commands (every verb, valid or not), whatever the certificate
+    parser and the validators answer, and whatever the listener patch handlers
+    are, replaying [generate_requests] on an empty instance accepts every
+    request and rebuilds the same configuration — all eleven maps, modulo
+    empty buckets. *)
+Theorem replay_generate :
+  forall fingerprint inames hc_valid steps s,
+    reachable fingerprint inames hc_valid steps s ->
+    exists s', replay fingerprint inames hc_valid steps (generate_requests s) empty_state = (s', 0%nat)
+               /\ norm s' = norm s.
+Proof.
+  intros fp nm hc st s Hr. apply replay_generate_norm. apply (reachable_InvR fp nm hc st). exact Hr.
+Qed.
+
+(** the invariant behind it (clusters carry valid health checks, front keys are
+    the keys of their values, backend buckets sorted and unique on (id,address),
+    frontend buckets duplicate-free, certificates filed under their fingerprint
+    with resolved names) holds initially and is kept by every command *)
+Theorem replay_invariant_inductive :
+  forall fingerprint inames hc_valid steps s r,
+    InvR fingerprint inames hc_valid empty_state
+    /\ (InvR fingerprint inames hc_valid s ->
+        InvR fingerprint inames hc_valid (fst (dispatch fingerprint inames hc_valid steps s r))).
+Proof. intros. split; [apply InvR_empty|apply InvR_dispatch]. Qed.
+
+(** exact form of the rebuilt state *)
+Theorem replay_generate_exact :
+  forall fingerprint inames hc_valid steps s,
+    InvR fingerprint inames hc_valid s ->
+    replay fingerprint inames hc_valid steps (generate_requests s) empty_state = (rebuilt s, 0%nat).
+Proof. intros. apply ReplayBuckets.replay_generate. assumption. Qed.
+
+(** special case kept from the first version: without bucket sections the state is rebuilt exactly *)
 Theorem replay_generate_partial :
   forall fingerprint inames hc_valid steps s,
     Inv5 hc_valid s -> no_buckets s ->
